@@ -26,6 +26,7 @@ variables runLock = "free", killedFlag = FALSE, started = FALSE, finished = FALS
           bodyRan = FALSE, bodyDone = FALSE,
           raisedIn = "none",        \* where the asynchronous exception surfaced
           killReqAt = "none",       \* T's position when kill() was called
+          flagBeforeLock = FALSE,   \* the killed flag was set before T took its running lock
           probeSaw = "none";
 
 define
@@ -68,6 +69,7 @@ end process;
 fair process K = "K"
 begin
 k1:   killedFlag := TRUE; killReqAt := TPos;
+      flagBeforeLock := (~started \/ pc["T"] \in {"st", "r1"});
 k2:   if ~started \/ finished then
         goto kdone;
       end if;
@@ -83,7 +85,7 @@ end process;
 end algorithm; *)
 \* BEGIN TRANSLATION
 VARIABLES pc, runLock, killedFlag, started, finished, pending, bodyRan, 
-          bodyDone, raisedIn, killReqAt, probeSaw
+          bodyDone, raisedIn, killReqAt, flagBeforeLock, probeSaw
 
 (* define statement *)
 TPos == IF ~started THEN "notstarted"
@@ -94,7 +96,7 @@ TPos == IF ~started THEN "notstarted"
 VARIABLE i
 
 vars == << pc, runLock, killedFlag, started, finished, pending, bodyRan, 
-           bodyDone, raisedIn, killReqAt, probeSaw, i >>
+           bodyDone, raisedIn, killReqAt, flagBeforeLock, probeSaw, i >>
 
 ProcSet == {"T"} \cup {"S"} \cup {"K"}
 
@@ -108,6 +110,7 @@ Init == (* Global variables *)
         /\ bodyDone = FALSE
         /\ raisedIn = "none"
         /\ killReqAt = "none"
+        /\ flagBeforeLock = FALSE
         /\ probeSaw = "none"
         (* Process T *)
         /\ i = 0
@@ -119,14 +122,16 @@ st == /\ pc["T"] = "st"
       /\ started
       /\ pc' = [pc EXCEPT !["T"] = "r1"]
       /\ UNCHANGED << runLock, killedFlag, started, finished, pending, bodyRan, 
-                      bodyDone, raisedIn, killReqAt, probeSaw, i >>
+                      bodyDone, raisedIn, killReqAt, flagBeforeLock, probeSaw, 
+                      i >>
 
 r1 == /\ pc["T"] = "r1"
       /\ runLock = "free"
       /\ runLock' = "T"
       /\ pc' = [pc EXCEPT !["T"] = "r2"]
       /\ UNCHANGED << killedFlag, started, finished, pending, bodyRan, 
-                      bodyDone, raisedIn, killReqAt, probeSaw, i >>
+                      bodyDone, raisedIn, killReqAt, flagBeforeLock, probeSaw, 
+                      i >>
 
 r2 == /\ pc["T"] = "r2"
       /\ IF pending
@@ -138,7 +143,7 @@ r2 == /\ pc["T"] = "r2"
                        ELSE /\ pc' = [pc EXCEPT !["T"] = "body"]
                  /\ UNCHANGED << pending, raisedIn >>
       /\ UNCHANGED << runLock, killedFlag, started, finished, bodyRan, 
-                      bodyDone, killReqAt, probeSaw, i >>
+                      bodyDone, killReqAt, flagBeforeLock, probeSaw, i >>
 
 body == /\ pc["T"] = "body"
         /\ IF i < BodySteps
@@ -156,7 +161,7 @@ body == /\ pc["T"] = "body"
                    /\ pc' = [pc EXCEPT !["T"] = "r3"]
                    /\ UNCHANGED << pending, bodyRan, raisedIn, i >>
         /\ UNCHANGED << runLock, killedFlag, started, finished, killReqAt, 
-                        probeSaw >>
+                        flagBeforeLock, probeSaw >>
 
 r3 == /\ pc["T"] = "r3"
       /\ IF pending
@@ -167,7 +172,7 @@ r3 == /\ pc["T"] = "r3"
       /\ runLock' = "free"
       /\ pc' = [pc EXCEPT !["T"] = "h2"]
       /\ UNCHANGED << killedFlag, started, finished, bodyRan, bodyDone, 
-                      killReqAt, probeSaw, i >>
+                      killReqAt, flagBeforeLock, probeSaw, i >>
 
 h2 == /\ pc["T"] = "h2"
       /\ IF pending
@@ -178,7 +183,7 @@ h2 == /\ pc["T"] = "h2"
       /\ finished' = TRUE
       /\ pc' = [pc EXCEPT !["T"] = "Done"]
       /\ UNCHANGED << runLock, killedFlag, started, bodyRan, bodyDone, 
-                      killReqAt, probeSaw, i >>
+                      killReqAt, flagBeforeLock, probeSaw, i >>
 
 T == st \/ r1 \/ r2 \/ body \/ r3 \/ h2
 
@@ -186,13 +191,15 @@ s1 == /\ pc["S"] = "s1"
       /\ started' = TRUE
       /\ pc' = [pc EXCEPT !["S"] = "Done"]
       /\ UNCHANGED << runLock, killedFlag, finished, pending, bodyRan, 
-                      bodyDone, raisedIn, killReqAt, probeSaw, i >>
+                      bodyDone, raisedIn, killReqAt, flagBeforeLock, probeSaw, 
+                      i >>
 
 S == s1
 
 k1 == /\ pc["K"] = "k1"
       /\ killedFlag' = TRUE
       /\ killReqAt' = TPos
+      /\ flagBeforeLock' = (~started \/ pc["T"] \in {"st", "r1"})
       /\ pc' = [pc EXCEPT !["K"] = "k2"]
       /\ UNCHANGED << runLock, started, finished, pending, bodyRan, bodyDone, 
                       raisedIn, probeSaw, i >>
@@ -202,7 +209,8 @@ k2 == /\ pc["K"] = "k2"
             THEN /\ pc' = [pc EXCEPT !["K"] = "kdone"]
             ELSE /\ pc' = [pc EXCEPT !["K"] = "k3"]
       /\ UNCHANGED << runLock, killedFlag, started, finished, pending, bodyRan, 
-                      bodyDone, raisedIn, killReqAt, probeSaw, i >>
+                      bodyDone, raisedIn, killReqAt, flagBeforeLock, probeSaw, 
+                      i >>
 
 k3 == /\ pc["K"] = "k3"
       /\ IF runLock = "free"
@@ -216,7 +224,7 @@ k3 == /\ pc["K"] = "k3"
                        ELSE /\ pc' = [pc EXCEPT !["K"] = "k4"]
                             /\ UNCHANGED pending
       /\ UNCHANGED << runLock, killedFlag, started, finished, bodyRan, 
-                      bodyDone, raisedIn, killReqAt, i >>
+                      bodyDone, raisedIn, killReqAt, flagBeforeLock, i >>
 
 k4 == /\ pc["K"] = "k4"
       /\ IF ~finished
@@ -225,13 +233,15 @@ k4 == /\ pc["K"] = "k4"
                  /\ UNCHANGED pending
       /\ pc' = [pc EXCEPT !["K"] = "kdone"]
       /\ UNCHANGED << runLock, killedFlag, started, finished, bodyRan, 
-                      bodyDone, raisedIn, killReqAt, probeSaw, i >>
+                      bodyDone, raisedIn, killReqAt, flagBeforeLock, probeSaw, 
+                      i >>
 
 kdone == /\ pc["K"] = "kdone"
          /\ TRUE
          /\ pc' = [pc EXCEPT !["K"] = "Done"]
          /\ UNCHANGED << runLock, killedFlag, started, finished, pending, 
-                         bodyRan, bodyDone, raisedIn, killReqAt, probeSaw, i >>
+                         bodyRan, bodyDone, raisedIn, killReqAt, 
+                         flagBeforeLock, probeSaw, i >>
 
 K == k1 \/ k2 \/ k3 \/ k4 \/ kdone
 
@@ -260,4 +270,7 @@ KillAfterBodyNoEffect == (killReqAt \in {"handlers", "finished"}) => (raisedIn =
    confined to the body: never in the handlers *)
 ConfinedToBody == raisedIn # "handlers"
 NoPendingAfterFinish == finished => ~pending
+(* a kill is never lost: if the flag was set before the thread took its running
+   lock (it tests the flag under that lock), the body never runs *)
+FlagBeforeLockMeansNoBody == flagBeforeLock => ~bodyRan
 ====
